@@ -43,6 +43,11 @@ fn main() {
             println!("lines={}", rec.finish());
         }
         "gen-fixtures" => keys::gen_fixtures(),
+        "feat-material" => {
+            let v = obs_cross::feature_material(seed);
+            std::fs::write(&out, serde_json::to_vec(&v).unwrap()).unwrap();
+            println!("ok");
+        }
         "obs-shared" => {
             let mut rec = Recorder::create(&out);
             std::panic::set_hook(Box::new(|_| {}));
